@@ -531,18 +531,30 @@ class GeckoAsyncSpaMan(ABC, AsyncTasks):
         try:
             while True:
 
-                if (
-                    self.spa_state == GeckoSpaState.IDLE
-                    and self._spa_descriptors is None
-                ):
-                    await self.async_locate_spas(self._spa_address)
+                try:
+                    if (
+                        self.spa_state == GeckoSpaState.IDLE
+                        and self._spa_descriptors is None
+                    ):
+                        await self.async_locate_spas(self._spa_address)
 
-                if (
-                    self.spa_state == GeckoSpaState.LOCATED_SPAS
-                    and self._spa_identifier is not None
-                    and self._facade is None
-                ):
-                    await self.async_connect(self._spa_identifier, self._spa_address)
+                    if (
+                        self.spa_state == GeckoSpaState.LOCATED_SPAS
+                        and self._spa_identifier is not None
+                        and self._facade is None
+                    ):
+                        await self.async_connect(
+                            self._spa_identifier, self._spa_address
+                        )
+
+                except asyncio.CancelledError:
+                    raise
+
+                except Exception:  # noqa
+                    # A failed locate or connect phase must not kill the pump,
+                    # start over so that the next iteration can try again
+                    _LOGGER.exception("Exception in sequence pump, resetting")
+                    await self.async_reset()
 
                 await asyncio.sleep(GeckoConstants.ASYNCIO_SLEEP_TIMEOUT_FOR_YIELD)
 
